@@ -20,11 +20,11 @@ for c,props in FIX.items():
     rc,out=sh(f"git diff {c} {c}~1 -- . ':(exclude)*zz_contracts_verif.go' | git apply --3way 2>&1 || git diff {c} {c}~1 -- . ':(exclude)*zz_contracts_verif.go' | git apply",REPO)
     rc2,st=sh("git status --porcelain",REPO)
     if rc!=0 or "UU" in st:
-        sh("git checkout -- . && git reset -q",REPO)
+        sh("git reset -q --hard HEAD",REPO)
         res[c]={"status":"revert does not apply cleanly to HEAD (later changes touch the same lines)"}; print(c,res[c]); continue
     rcb,outb=sh("GOFLAGS=-mod=mod GOPROXY=off GOTOOLCHAIN=local go build ./...",REPO)
     if rcb!=0:
-        sh("git checkout -- . && git reset -q",REPO); res[c]={"status":"reverted tree does not build"}; print(c,res[c]); continue
+        sh("git reset -q --hard HEAD",REPO); res[c]={"status":"reverted tree does not build"}; print(c,res[c]); continue
     for p in props:
         t=time.time()
         try:
@@ -34,7 +34,7 @@ for c,props in FIX.items():
         viol=[l for l in out.splitlines() if l.startswith("VIOLATION")]
         res[c+":"+p]={"exit":rc,"violations":len(viol),"first":(viol[0][:240] if viol else ""),"s":round(time.time()-t,1)}
         print(c,p,json.dumps(res[c+":"+p])[:330],flush=True)
-    sh("git checkout -- . && git reset -q",REPO)
+    sh("git reset -q --hard HEAD",REPO)
     rc,out=sh("git status --porcelain",REPO); assert out.strip()=="", out
 os.makedirs("/verif/out",exist_ok=True)
 json.dump(res,open("/verif/out/selftest_reverts.json","w"),indent=1)
